@@ -49,16 +49,18 @@ CFG["manifest"] = dict(
          "(2) DeleteRecords / DescribeConsumerGroups send one request per leader / coordinator carrying exactly its items (each item "
          "exactly as often as requested, never to another broker) and report an error as soon as one broker call fails or one item "
          "carries an error code; DeleteConsumerGroup / ListConsumerGroupOffsets / DescribeLogDirs ask the right broker once and hand its "
-         "verdict on. The theorems are proved for the repaired variants of the model; for the pinned tree they hold under the stated "
+         "verdict on. The theorems are proved for the repaired variants of the model; for the defect variants (the tree as first pinned) they hold under the stated "
          "extra hypotheses (Admin.Retry.Max >= 1; not AlterPartitionReassignments) and concrete counter-examples are proved for the "
-         "rest (known findings). Version-selection chains, requiredVersion tables, error constants and the DeleteConsumerGroup tail are "
+         "rest (three of them since repaired in /repo, one still a known finding). Version-selection chains, requiredVersion tables, error constants and the DeleteConsumerGroup tail are "
          "re-translated from /repo on every run and proved equal to the model; retryOnError, isErrNoController, the retry closures and "
          "the grouping loops are tied by differential execution of the real ClusterAdmin against scripted in-package MockBrokers "
          "(result + per-broker request log + metadata refresh count vs the compiled model) plus an oracle that evaluates the property "
          "statement itself on result and request log.",
     note="Trusted: Lean kernel; translator tools/extract + GoSem.lean; harness, scripted MockBroker handlers (overlay c19_cluster.go) and line protocol. "
          "Modelled not verified: client-side controller/leader/coordinator caches (contract only), the wire codec (C09/C10), timing/back-off. "
-         "Pinned-tree deviations reported as known findings: Retry.Max=0 returns nil without sending; AlterPartitionReassignments neither "
-         "recognises NOT_CONTROLLER nor a negative top-level code nor a missing partition. DescribeLogDirs with an unknown broker id never returns (observed, outside the statement).",
+         "Repaired in /repo (the check would report them again as violations): Admin.Retry.Max=0 returned nil without sending (99dbc91); "
+         "AlterPartitionReassignments did not recognise NOT_CONTROLLER (0d72a77) nor a negative top-level code (299a530). Still a known finding: "
+         "AlterPartitionReassignments reports success when the response lacks a requested partition. "
+         "DescribeLogDirs with an unknown broker id never returns (observed, outside the statement).",
     technique="Lean 4 proof (induction over the retry loop with a client/world invariant; list counting for the grouping) + regenerated bridge obligations + differential correspondence against scripted mock brokers",
 )
